@@ -1,3 +1,5 @@
 pub mod c04;
+pub mod c05;
+pub mod c12;
 pub mod c16;
 pub mod c18;
